@@ -1,6 +1,7 @@
 import Cqos.Props.C01
 import Cqos.Props.C02
 import Cqos.Lemmas.SortDesc
+import Cqos.Lemmas.AssocList
 /-
   Property C15 — the divider contract is honoured and divider faults fail safe.
 
@@ -125,5 +126,475 @@ theorem c15_failsafe_step (div : DivFn) (s s' : St) (a : Act) (e : Err) (hinv : 
     | pollClosed => obtain ⟨ph, p, rest, h1, _⟩ := step_poll_pc (Or.inr (Or.inr (Or.inl rfl))) hs; rw [hpc] at h1; cases h1
     | pollEmpty => obtain ⟨ph, p, rest, h1, _⟩ := step_poll_pc (Or.inr (Or.inr (Or.inr (Or.inl rfl)))) hs; rw [hpc] at h1; cases h1
     | skip => obtain ⟨ph, p, rest, h1, _⟩ := step_poll_pc (Or.inr (Or.inr (Or.inr (Or.inr rfl)))) hs; rw [hpc] at h1; cases h1
+
+theorem c15_failsafe_run (div : DivFn) (acts : List Act) (s s' : St) (e : Err) (hinv : Inv s) (h : Failed s e)
+    (hr : run div s acts = some s') : Failed s' e ∧ s'.delivered = s.delivered := by
+  induction acts generalizing s with
+  | nil => simp [run] at hr; subst hr; exact ⟨h, rfl⟩
+  | cons a as ih =>
+    simp only [run] at hr
+    split at hr
+    · rename_i s1 hs1
+      obtain ⟨h1, hd1⟩ := c15_failsafe_step div s s1 a e hinv h hs1
+      obtain ⟨h2, hd2⟩ := ih s1 (C01.step_inv div s s1 a hinv hs1).1 h1 hr
+      exact ⟨h2, by rw [hd2, hd1]⟩
+    · cases hr
+
+/-- **C15 (a rejected round division fails the discipline).** If `calcTactic` or
+    `recalcTactic` reports an error, the next control state is `drain (some e)`. -/
+theorem c15_calc_fault (div : DivFn) (s : St) (e : Err) (hle : ¬ s.cfg.H < s.actual.total)
+    (hv : (calcTacticWith (div s.calls) s.prios s.actual s.strategic s.tactic (s.cfg.H - s.actual.total)).verdict = .error e) :
+    Failed (stepCalc div s) e := by
+  left
+  simp only [stepCalc, hle, if_false, hv]
+
+theorem c15_recalc_fault (div : DivFn) (s : St) (e : Err)
+    (hv : (recalcTacticWith div s.calls s.cfg.H s.prios s.actual s.tactic).verdict = .error e) :
+    Failed (stepRecalc div s) e := by
+  left
+  simp only [stepRecalc, hv]
+
+/-- the base division of a round is rejected exactly when its added total is neither 0 nor
+    the number of vacant handlers -/
+theorem c15_base_fault_iff (div : List Nat → Nat → Dist → Dist) (prios : List Nat)
+    (actual strategic tactic : Dist) (vacants : Nat) :
+    (calcBase div prios actual strategic tactic vacants).2 = .error .dividerBad ↔
+      ((div (uncrowded prios actual strategic) vacants tactic.zeroAll).total ≠ 0 ∧
+       (div (uncrowded prios actual strategic) vacants tactic.zeroAll).total ≠ vacants) := by
+  rw [← round_division_err_iff]
+  unfold calcBase
+  simp only
+  constructor
+  · intro h
+    split at h
+    · rename_i t e heq
+      cases h
+      simp [heq]
+    · cases h
+  · intro h
+    split
+    · rename_i t e heq
+      rw [heq] at h
+      simp only [Option.some.injEq] at h
+      subst h; rfl
+    · rename_i t heq
+      rw [heq] at h; cases h
+
+/-- **C15 (termination after a fault).** In `drain`, with every in-flight item released:
+    the pending releases can be consumed one by one, and once none is left `actual` is all
+    zero and the discipline terminates with the recorded error. -/
+theorem c15_drain_progress (div : DivFn) (s : St) (e : Option Err) (hinv : Inv s) (hpc : s.pc = .drain e) :
+    (s.actual.allZero = true → ∃ s', step div s .exit = some s' ∧ s'.pc = .done e) ∧
+    (s.actual.allZero = false → ∀ p ∈ s.pending, ∃ s', step div s (.consume p) = some s' ∧
+        s'.pending.length + 1 = s.pending.length ∧ s'.pc = .drain e) ∧
+    (s.inflight.total = 0 → s.pending = [] → s.actual.allZero = true) := by
+  refine ⟨fun hz => ⟨{ s with pc := .done e }, by simp [step, hpc, hz], rfl⟩, fun hz p hp => ?_, fun hi hp => ?_⟩
+  · obtain ⟨h1, _, _, h4, _⟩ := decActual_spec { s with pending := s.pending.erase p } p s.pending hinv.core hp rfl
+    refine ⟨decActual { s with pending := s.pending.erase p } p, by simp [step, hpc, hz, hp], ?_, by rw [h1]; exact hpc⟩
+    have hl := List.length_erase_of_mem hp
+    have hpos : 0 < s.pending.length := List.length_pos_of_mem hp
+    have : (decActual { s with pending := s.pending.erase p } p).pending = s.pending.erase p := by
+      unfold decActual; split <;> rfl
+    rw [this, hl]; omega
+  · have := hinv.core.tot
+    rw [hi, hp] at this
+    exact (Dist.allZero_iff_total _).2 (by simpa using this)
+
+/-! ### the argument contract -/
+
+/-- well-formedness of the registered priorities -/
+structure WF (s : St) : Prop where
+  sorted : s.prios.Pairwise (· > ·)
+  regs : ∀ p, p ∈ s.prios ↔ (alGet s.inputs p).isSome
+  inputsNd : (alKeys s.inputs).Nodup
+  /-- every recorded divider call: strictly decreasing priorities, dividend ≤ H -/
+  logOK : ∀ e ∈ s.log, e.1.Pairwise (· > ·) ∧ e.2 ≤ s.cfg.H
+  /-- inside `prioritize` only registered priorities are visited -/
+  restSub : ∀ ph rest, s.pc = .prio ph rest → rest.Sublist s.prios
+
+theorem filter_strict (l : List Nat) (f : Nat → Bool) (h : l.Pairwise (· > ·)) : (l.filter f).Pairwise (· > ·) :=
+  List.Pairwise.sublist (List.filter_sublist) h
+
+theorem wf_same {s u : St} (h : WF s) (hp : u.prios = s.prios) (hi : u.inputs = s.inputs) (hl : u.log = s.log)
+    (hc : u.cfg = s.cfg) (hpc : ∀ ph rest, u.pc = .prio ph rest → rest.Sublist s.prios) : WF u :=
+  ⟨by rw [hp]; exact h.sorted, by rw [hp, hi]; exact h.regs, by rw [hi]; exact h.inputsNd,
+   by rw [hl, hc]; exact h.logOK, by rw [hp]; exact hpc⟩
+
+theorem wf_decActual {t : St} (p : Nat) (h : WF t) : WF (decActual t p) := by
+  unfold decActual
+  split
+  · exact wf_same h rfl rfl rfl rfl (fun ph rest hpc => by simp at hpc)
+  · exact wf_same h rfl rfl rfl rfl h.restSub
+
+theorem calc_divArgs (f : List Nat → Nat → Dist → Dist) (prios : List Nat) (a st t : Dist) (v : Nat) :
+    ∀ e ∈ (calcTacticWith f prios a st t v).divArgs, e.1.Sublist prios ∧ e.2 = v := by
+  intro e he
+  unfold calcTacticWith at he
+  split at he
+  · simp at he
+  · split at he
+    · simp at he
+    · simp only [List.mem_singleton] at he
+      subst he
+      exact ⟨List.filter_sublist, rfl⟩
+
+theorem recalc_divArgs (div : DivFn) (i H : Nat) (prios : List Nat) (a t : Dist) :
+    ∀ e ∈ (recalcTacticWith div i H prios a t).divArgs, e.1.Sublist prios ∧ (e.2 = H ∨ e.2 = t.total) := by
+  intro e he
+  unfold recalcTacticWith at he
+  simp only at he
+  split at he
+  · simp only [List.mem_singleton] at he; subst he; exact ⟨List.filter_sublist, Or.inl rfl⟩
+  · split at he <;>
+    · simp only [List.mem_cons, List.not_mem_nil, or_false] at he
+      rcases he with rfl | rfl
+      · exact ⟨List.filter_sublist, Or.inl rfl⟩
+      · exact ⟨List.filter_sublist, Or.inr rfl⟩
+
+theorem wf_stepCalc (div : DivFn) (s : St) (h : WF s) : WF (stepCalc div s) := by
+  have hlog : ∀ e ∈ (s.log ++ (calcTacticWith (div s.calls) s.prios s.actual s.strategic s.tactic
+      (s.cfg.H - s.actual.total)).divArgs), e.1.Pairwise (· > ·) ∧ e.2 ≤ s.cfg.H := by
+    intro e he
+    simp only [List.mem_append] at he
+    rcases he with he | he
+    · exact h.logOK e he
+    · obtain ⟨h1, h2⟩ := calc_divArgs _ _ _ _ _ _ e he
+      exact ⟨List.Pairwise.sublist h1 h.sorted, by rw [h2]; omega⟩
+  simp only [stepCalc]
+  split
+  · split
+    · exact wf_same h rfl rfl rfl rfl (fun ph rest hpc => by simp at hpc)
+    · exact wf_same h rfl rfl rfl rfl (fun ph rest hpc => by simp at hpc)
+  · split
+    · exact ⟨h.sorted, h.regs, h.inputsNd, hlog, fun ph rest hpc => by simp at hpc; rw [← hpc.2]; exact List.Sublist.refl _⟩
+    · exact ⟨h.sorted, h.regs, h.inputsNd, hlog, fun ph rest hpc => by simp at hpc⟩
+    · exact ⟨h.sorted, h.regs, h.inputsNd, hlog, fun ph rest hpc => by simp at hpc⟩
+
+theorem wf_stepRecalc (div : DivFn) (s : St) (h : WF s) (hcap : s.tactic.total ≤ s.cfg.H) : WF (stepRecalc div s) := by
+  have hlog : ∀ e ∈ (s.log ++ (recalcTacticWith div s.calls s.cfg.H s.prios s.actual s.tactic).divArgs),
+      e.1.Pairwise (· > ·) ∧ e.2 ≤ s.cfg.H := by
+    intro e he
+    simp only [List.mem_append] at he
+    rcases he with he | he
+    · exact h.logOK e he
+    · obtain ⟨h1, h2⟩ := recalc_divArgs _ _ _ _ _ _ e he
+      refine ⟨List.Pairwise.sublist h1 h.sorted, ?_⟩
+      rcases h2 with h2 | h2 <;> rw [h2]
+      · exact Nat.le_refl _
+      · exact hcap
+  simp only [stepRecalc]
+  split
+  · exact ⟨h.sorted, h.regs, h.inputsNd, hlog, fun ph rest hpc => by simp at hpc; rw [← hpc.2]; exact List.Sublist.refl _⟩
+  · exact ⟨h.sorted, h.regs, h.inputsNd, hlog, fun ph rest hpc => by simp at hpc; rw [hpc.2]; exact List.nil_sublist _⟩
+  · exact ⟨h.sorted, h.regs, h.inputsNd, hlog, fun ph rest hpc => by simp at hpc⟩
+
+theorem wf_stepTop (div : DivFn) (s s' : St) (c : TopChoice) (h : WF s) (hs : stepTop div s c = some s') : WF s' := by
+  cases c with
+  | stop =>
+    simp only [stepTop] at hs
+    split at hs
+    · cases hs; exact wf_same h rfl rfl rfl rfl (fun ph rest hpc => by simp at hpc)
+    · cases hs
+  | none =>
+    simp only [stepTop, Option.some.injEq] at hs
+    subst hs
+    exact wf_same h rfl rfl rfl rfl (fun ph rest hpc => by simp [afterTop] at hpc)
+  | feedback p =>
+    simp only [stepTop] at hs
+    split at hs
+    · split at hs
+      · cases hs; exact wf_decActual p (wf_same h rfl rfl rfl rfl h.restSub)
+      · cases hs
+        have := wf_decActual p (wf_same (u := { s with pending := s.pending.erase p }) h rfl rfl rfl rfl h.restSub)
+        exact wf_same this rfl rfl rfl rfl (fun ph rest hpc => by simp [afterTop] at hpc)
+    · cases hs
+  | add p c b =>
+    simp only [stepTop, Option.some.injEq] at hs
+    subst hs
+    have hnd := nodup_of_strict _ h.sorted
+    by_cases hex : (alGet s.inputs p).isSome = true
+    · -- the priority is already registered: only its channel is replaced
+      have hmem : p ∈ s.prios := (h.regs p).2 hex
+      have hsorted : (sortDesc s.prios).Pairwise (· > ·) := sortDesc_strict _ hnd
+      refine ⟨by simpa [afterTop, restrategize, hex] using hsorted, ?_, ?_, ?_, fun ph rest hpc => by simp [afterTop] at hpc⟩
+      · intro q
+        simp only [afterTop, restrategize, hex, if_true, mem_sortDesc, alGet_alSet']
+        by_cases hq : p = q
+        · subst hq; simp [hmem]
+        · simp only [hq, if_false]; exact h.regs q
+      · simpa [afterTop, restrategize] using nodup_alSet s.inputs p ⟨c, false⟩ h.inputsNd
+      · intro e he
+        simp only [afterTop, restrategize, hex, if_true, List.mem_append, List.mem_singleton] at he
+        rcases he with he | rfl
+        · exact h.logOK e he
+        · exact ⟨hsorted, Nat.le_refl _⟩
+    · have hnmem : p ∉ s.prios := fun hm => hex ((h.regs p).1 hm)
+      have hnd' : (s.prios ++ [p]).Nodup := by
+        rw [List.nodup_append]
+        exact ⟨hnd, by simp, fun a ha b hb hab => by simp at hb; subst hb; subst hab; exact hnmem ha⟩
+      have hsorted : (sortDesc (s.prios ++ [p])).Pairwise (· > ·) := sortDesc_strict _ hnd'
+      have hex' : (alGet s.inputs p).isSome = false := by simpa using hex
+      refine ⟨by simpa [afterTop, restrategize, hex'] using hsorted, ?_, ?_, ?_, fun ph rest hpc => by simp [afterTop] at hpc⟩
+      · intro q
+        simp only [afterTop, restrategize, hex', Bool.false_eq_true, if_false, mem_sortDesc, alGet_alSet',
+          List.mem_append, List.mem_singleton]
+        by_cases hq : p = q
+        · subst hq; simp
+        · have : ¬ q = p := fun e => hq e.symm
+          simp only [hq, if_false, this, or_false]; exact h.regs q
+      · simpa [afterTop, restrategize] using nodup_alSet s.inputs p ⟨c, false⟩ h.inputsNd
+      · intro e he
+        simp only [afterTop, restrategize, hex', Bool.false_eq_true, if_false, List.mem_append, List.mem_singleton] at he
+        rcases he with he | rfl
+        · exact h.logOK e he
+        · exact ⟨hsorted, Nat.le_refl _⟩
+  | remove p =>
+    simp only [stepTop, Option.some.injEq] at hs
+    subst hs
+    have hsorted : (s.prios.filter (· ≠ p)).Pairwise (· > ·) := filter_strict _ _ h.sorted
+    refine ⟨by simpa [afterTop, restrategize] using hsorted, ?_, ?_, ?_, fun ph rest hpc => by simp [afterTop] at hpc⟩
+    · intro q
+      simp only [afterTop, restrategize, List.mem_filter, ne_eq, decide_not, Bool.not_eq_true', decide_eq_false_iff_not]
+      rw [alGet_alErase _ _ _ h.inputsNd]
+      by_cases hq : p = q
+      · subst hq; simp
+      · have : ¬ q = p := fun e => hq e.symm
+        simp only [hq, if_false, this, not_false_eq_true, and_true]; exact h.regs q
+    · simpa [afterTop, restrategize] using nodup_alErase s.inputs p h.inputsNd
+    · intro e he
+      simp only [afterTop, restrategize, List.mem_append, List.mem_singleton] at he
+      rcases he with he | rfl
+      · exact h.logOK e he
+      · exact ⟨hsorted, Nat.le_refl _⟩
+
+/-- **one step keeps the well-formedness / argument-contract invariant** -/
+theorem wf_step (div : DivFn) (s s' : St) (a : Act) (hinv : Inv s) (h : WF s) (hs : step div s a = some s') : WF s' := by
+  have tail : ∀ ph p rest, s.pc = .prio ph (p :: rest) → rest.Sublist s.prios := by
+    intro ph p rest hpc
+    exact (List.sublist_cons_self p rest).trans (h.restSub ph (p :: rest) hpc)
+  cases a with
+  | arrive c x => obtain ⟨ch, _, _, rfl⟩ := step_arrive hs; exact wf_same h rfl rfl rfl rfl h.restSub
+  | close c => obtain ⟨ch, _, rfl⟩ := step_close hs; exact wf_same h rfl rfl rfl rfl h.restSub
+  | release p => obtain ⟨_, rfl⟩ := step_release hs; exact wf_same h rfl rfl rfl rfl h.restSub
+  | stop => obtain ⟨_, rfl⟩ := step_stop hs; exact wf_same h rfl rfl rfl rfl h.restSub
+  | graceful => obtain ⟨_, rfl⟩ := step_graceful hs; exact wf_same h rfl rfl rfl rfl h.restSub
+  | top c => exact wf_stepTop div s s' c h (step_top hs).2
+  | «calc» => obtain ⟨_, rfl⟩ := step_calc hs; exact wf_stepCalc div s h
+  | recalc =>
+    obtain ⟨hpc, rfl⟩ := step_recalc hs
+    have := hinv.cap; rw [hpc] at this
+    exact wf_stepRecalc div s h (by simp only [capOk] at this; omega)
+  | endRound =>
+    obtain ⟨ph, _, _, hc⟩ := step_endRound hs
+    rcases hc with ⟨_, _, _, rfl⟩ | ⟨_, rfl⟩ <;> exact wf_same h rfl rfl rfl rfl (fun ph rest hpc => by simp at hpc)
+  | limitedStop =>
+    obtain ⟨k, _, rfl⟩ := step_limitedStop hs
+    exact wf_same h rfl rfl rfl rfl (fun ph rest hpc => by
+      rcases nextRound_pc s with e | e <;> simp [e] at hpc)
+  | exit => obtain ⟨e, _, _, rfl⟩ := step_exit hs; exact wf_same h rfl rfl rfl rfl (fun ph rest hpc => by simp at hpc)
+  | consume p =>
+    obtain ⟨_, hc⟩ := step_consume hs
+    have base : WF (decActual { s with pending := s.pending.erase p } p) :=
+      wf_decActual p (wf_same (u := { s with pending := s.pending.erase p }) h rfl rfl rfl rfl h.restSub)
+    rcases hc with ⟨hpc, rfl⟩ | ⟨k, hpc, _, rfl⟩ | ⟨e, hpc, _, rfl⟩
+    · split
+      · exact base
+      · unfold afterWaitFb
+        split
+        · refine ⟨base.sorted, base.regs, base.inputsNd, base.logOK, fun ph rest hp => ?_⟩
+          simp at hp; rw [← hp.2]; exact List.Sublist.refl _
+        · exact wf_same base rfl rfl rfl rfl (fun ph rest hp => by simp at hp)
+    · split
+      · exact base
+      · exact wf_same base rfl rfl rfl rfl (fun ph rest hp => by simp at hp)
+    · exact base
+  | stopSeen =>
+    obtain ⟨_, _, hc⟩ := step_stopSeen hs
+    rcases hc with ⟨_, rfl⟩ | ⟨ph, p, rest, hpc, rfl⟩ | ⟨k, _, rfl⟩ | ⟨e, _, rfl⟩
+    · unfold afterWaitFb
+      split
+      · refine ⟨h.sorted, h.regs, h.inputsNd, h.logOK, fun ph rest hp => ?_⟩
+        simp at hp; rw [← hp.2]; exact List.Sublist.refl _
+      · exact wf_same h rfl rfl rfl rfl (fun ph rest hp => by simp at hp)
+    · exact wf_same h rfl rfl rfl rfl (fun ph' rest' hp => by simp at hp; rw [← hp.2]; exact tail ph p rest hpc)
+    · exact wf_same h rfl rfl rfl rfl (fun ph rest hpc => by rcases nextRound_pc s with e | e <;> simp [e] at hpc)
+    · exact wf_same h rfl rfl rfl rfl (fun ph rest hpc => by simp at hpc)
+  | skip =>
+    obtain ⟨ph, p, rest, hpc, hp⟩ := step_poll_pc (Or.inr (Or.inr (Or.inr (Or.inr rfl)))) hs
+    obtain ⟨rfl, _⟩ := stepPoll_skip hp
+    exact wf_same h rfl rfl rfl rfl (fun ph' rest' hp' => by simp at hp'; rw [← hp'.2]; exact tail ph p rest hpc)
+  | pollEmpty =>
+    obtain ⟨ph, p, rest, hpc, hp⟩ := step_poll_pc (Or.inr (Or.inr (Or.inr (Or.inl rfl)))) hs
+    have := stepPoll_empty hp; subst this
+    exact wf_same h rfl rfl rfl rfl (fun ph' rest' hp' => by simp at hp'; rw [← hp'.2]; exact tail ph p rest hpc)
+  | pollClosed =>
+    obtain ⟨ph, p, rest, hpc, hp⟩ := step_poll_pc (Or.inr (Or.inr (Or.inl rfl))) hs
+    obtain ⟨inp, ch, hin, _, _, _, rfl⟩ := stepPoll_closed hp
+    refine ⟨h.sorted, ?_, ?_, h.logOK, fun ph' rest' hp' => by simp at hp'; rw [← hp'.2]; exact tail ph p rest hpc⟩
+    · intro q
+      simp only [alGet_alSet']
+      by_cases hq : p = q
+      · subst hq; simp [(h.regs p).2 (by simp [hin])]
+      · simp only [hq, if_false]; exact h.regs q
+    · exact nodup_alSet s.inputs p _ h.inputsNd
+  | pollItem =>
+    obtain ⟨ph, p, rest, hpc, hp⟩ := step_poll_pc (Or.inl rfl) hs
+    obtain ⟨inp, ch, x, q, _, _, _, _, _, rfl⟩ := stepPoll_item hp
+    exact wf_same h rfl rfl rfl rfl (fun ph' rest' hp' => by rw [hpc] at hp'; exact h.restSub ph' rest' (by rw [hpc]; exact hp'))
+  | pollDrop =>
+    obtain ⟨ph, p, rest, hpc, hp⟩ := step_poll_pc (Or.inr (Or.inl rfl)) hs
+    obtain ⟨inp, ch, x, q, _, _, _, _, _, rfl⟩ := stepPoll_drop hp
+    exact wf_same h rfl rfl rfl rfl (fun ph' rest' hp' => by rw [hpc] at hp'; exact h.restSub ph' rest' (by rw [hpc]; exact hp'))
+
+theorem wf_run (div : DivFn) (acts : List Act) (s s' : St) (hinv : Inv s) (h : WF s) (hr : run div s acts = some s') :
+    WF s' ∧ Inv s' ∧ s'.cfg = s.cfg := by
+  induction acts generalizing s with
+  | nil => simp [run] at hr; subst hr; exact ⟨h, hinv, rfl⟩
+  | cons a as ih =>
+    simp only [run] at hr
+    split at hr
+    · rename_i s1 hs1
+      have h1 := C01.step_inv div s s1 a hinv hs1
+      obtain ⟨r1, r2, r3⟩ := ih s1 h1.1 (wf_step div s s1 a hinv h hs1) hr
+      exact ⟨r1, r2, by rw [r3, h1.2]⟩
+    · cases hr
+
+theorem alKeys_mkInputs (keys : List (Nat × Bool)) : alKeys (mkInputs keys).1 = keys.map (·.1) := by
+  simp [mkInputs, alKeys, List.map_map, Function.comp_def]
+
+theorem wf_initV2 (div : DivFn) (keys : List (Nat × Bool)) (H : Nat) (s : St) (hnd : (keys.map (·.1)).Nodup)
+    (h : initV2 div keys H = .ok s) : WF s := by
+  unfold initV2 at h
+  split at h
+  · cases h
+  · rename_i ps strategic hprep
+    cases h
+    have hps : ps = sortDesc (keys.map (·.1)) := by
+      unfold prepareV2 at hprep
+      simp only at hprep
+      split at hprep
+      · cases hprep
+      · split at hprep <;> cases hprep; rfl
+    subst hps
+    refine ⟨sortDesc_strict _ hnd, ?_, by rw [alKeys_mkInputs]; exact hnd, ?_, fun ph rest hpc => by simp at hpc⟩
+    · intro p
+      rw [mem_sortDesc, alGet_isSome_iff, alKeys_mkInputs]
+    · intro e he
+      simp only [List.mem_singleton] at he
+      subst he
+      exact ⟨sortDesc_strict _ hnd, Nat.le_refl _⟩
+
+theorem wf_initV1 (div : DivFn) (keys : List (Nat × Bool)) (H : Nat) (hnd : (keys.map (·.1)).Nodup) :
+    WF (initV1 div keys H) := by
+  refine ⟨sortDesc_strict _ hnd, ?_, by show (alKeys (mkInputs keys).1).Nodup; rw [alKeys_mkInputs]; exact hnd, ?_,
+    fun ph rest hpc => by simp [initV1] at hpc⟩
+  · intro p
+    show p ∈ sortDesc (keys.map (·.1)) ↔ (alGet (mkInputs keys).1 p).isSome
+    rw [mem_sortDesc, alGet_isSome_iff, alKeys_mkInputs]
+  · intro e he
+    simp only [initV1, List.mem_singleton] at he
+    subst he
+    exact ⟨sortDesc_strict _ hnd, Nat.le_refl _⟩
+
+/-- **C15 (argument contract, v2).** After any run of a v2 discipline every divider call that
+    was ever made received a strictly decreasing (sorted high to low, distinct) list of
+    priorities and a dividend not exceeding HandlersQuantity. -/
+theorem c15_args_v2 (div : DivFn) (keys : List (Nat × Bool)) (H : Nat) (hnd : (keys.map (·.1)).Nodup)
+    (s0 s : St) (acts : List Act) (h0 : initV2 div keys H = .ok s0) (hr : run div s0 acts = some s) :
+    ∀ e ∈ s.log, e.1.Pairwise (· > ·) ∧ e.2 ≤ H := by
+  obtain ⟨hf, hH⟩ := C01.initV2_fresh div keys H s0 h0
+  obtain ⟨hw, _, hc⟩ := wf_run div acts s0 s (C01.fresh_inv hf) (wf_initV2 div keys H s0 hnd h0) hr
+  have := hw.logOK; rw [hc, hH] at this; exact this
+
+/-- **C15 (argument contract, v1)** — across AddInput / RemoveInput / Stop. -/
+theorem c15_args_v1 (div : DivFn) (keys : List (Nat × Bool)) (H : Nat) (hnd : (keys.map (·.1)).Nodup)
+    (s : St) (acts : List Act) (hr : run div (initV1 div keys H) acts = some s) :
+    ∀ e ∈ s.log, e.1.Pairwise (· > ·) ∧ e.2 ≤ H := by
+  obtain ⟨hf, hH⟩ := C01.initV1_fresh div keys H
+  obtain ⟨hw, _, hc⟩ := wf_run div acts _ s (C01.fresh_inv hf) (wf_initV1 div keys H hnd) hr
+  have := hw.logOK; rw [hc, hH] at this; exact this
+
+/-- every call's priorities are among the priorities configured at that moment: the lists
+    are sub-lists (filters) of the registered priority list -/
+theorem c15_args_sublist_calc (f : List Nat → Nat → Dist → Dist) (prios : List Nat) (a st t : Dist) (v : Nat) :
+    ∀ e ∈ (calcTacticWith f prios a st t v).divArgs, e.1.Sublist prios := fun e he => (calc_divArgs f prios a st t v e he).1
+
+theorem c15_args_sublist_recalc (div : DivFn) (i H : Nat) (prios : List Nat) (a t : Dist) :
+    ∀ e ∈ (recalcTacticWith div i H prios a t).divArgs, e.1.Sublist prios := fun e he => (recalc_divArgs div i H prios a t e he).1
+
+/-! ### v2 New -/
+
+/-- **C15 (New returns ErrDividerBad exactly for a fault at creation).** -/
+theorem c15_new_divider_bad (div : List Nat → Nat → Dist → Dist) (keys : List Nat) (H : Nat) :
+    prepareV2 div keys H = .error .dividerBad ↔
+      ((div (sortDesc keys) H []).total ≠ 0 ∧ (div (sortDesc keys) H []).total ≠ H) := by
+  have key := safeDivide_err_iff div (sortDesc keys) H []
+  simp only [Dist.total_nil, Nat.not_lt_zero, false_or, Nat.sub_zero] at key
+  rw [← key]
+  unfold prepareV2
+  simp only
+  constructor
+  · intro h
+    split at h
+    · rename_i t e heq
+      cases h; simp [heq]
+    · split at h <;> cases h
+  · intro h
+    split
+    · rename_i t e heq
+      rw [heq] at h; simp only [Option.some.injEq] at h; subst h; rfl
+    · rename_i t heq
+      rw [heq] at h; cases h
+
+/-- **C15 (New rejects exactly the configurations in which some priority's share is zero)**
+    — given that the division itself passed the sum check. -/
+theorem c15_new_too_small (div : List Nat → Nat → Dist → Dist) (keys : List Nat) (H : Nat) :
+    prepareV2 div keys H = .error .tooSmall ↔
+      ((safeDivide div (sortDesc keys) H []).2 = none ∧ ∃ p ∈ sortDesc keys, (div (sortDesc keys) H []).get p = 0) := by
+  unfold prepareV2
+  simp only
+  have hfst := safeDivide_fst div (sortDesc keys) H []
+  constructor
+  · intro h
+    split at h
+    · rename_i t e heq
+      have := safeDivide_err_only div (sortDesc keys) H [] e (by rw [heq])
+      subst this; cases h
+    · rename_i t heq
+      split at h
+      · cases h
+      · rename_i hnf
+        refine ⟨by rw [heq], ?_⟩
+        have ht : t = div (sortDesc keys) H [] := by rw [← hfst, heq]
+        subst ht
+        have hf : filledFor (sortDesc keys) (div (sortDesc keys) H []) = false := by simpa using hnf
+        simp only [filledFor, List.all_eq_false] at hf
+        obtain ⟨p, hp, hz⟩ := hf
+        exact ⟨p, hp, by simpa using hz⟩
+  · rintro ⟨hok, p, hp, hz⟩
+    split
+    · rename_i t e heq; rw [heq] at hok; cases hok
+    · rename_i t heq
+      have ht : t = div (sortDesc keys) H [] := by rw [← hfst, heq]
+      subst ht
+      have : filledFor (sortDesc keys) (div (sortDesc keys) H []) = false := by
+        simp only [filledFor, List.all_eq_false, bne_iff_ne, ne_eq, Decidable.not_not]
+        exact ⟨p, hp, hz⟩
+      simp [this]
+
+/-- Defect D2 kept as a decided fact about the UNREPAIRED `prepare`: a divider that leaves
+    the key of a listed priority absent slipped through. -/
+theorem c15_unfixed_counterexample :
+    (prepareV2Unfixed (fun ps d m => match ps with | p :: _ => m.add p d | [] => m) [2, 1] 3).isOk = true ∧
+    prepareV2 (fun ps d m => match ps with | p :: _ => m.add p d | [] => m) [2, 1] 3 = .error .tooSmall :=
+  ⟨rfl, rfl⟩
+
+/-! Non-vacuity: a faulty second round division stops the deliveries. -/
+example :
+    (match initV2 (fun i ps d m => if i = 1 then (fair ps d m).add 2 5 else fair ps d m) [(2, true), (1, true)] 2 with
+     | .ok s0 =>
+       (run (fun i ps d m => if i = 1 then (fair ps d m).add 2 5 else fair ps d m) s0
+          [.arrive 2 7, .calc, .pollItem, .skip, .pollEmpty, .recalc]).map (fun s => s.pc)
+     | .error _ => none) = some (.drain (some .dividerBad)) := by decide
 
 end Cqos.C15
